@@ -144,8 +144,12 @@ def _refctx(c):
             "require_mask": not c["relaxed"], "utf8": True, "inflate": Inflater()}
 
 
-def _endpoint(c):
+def _endpoint(c, sibling=None):
     from harness import ws
+    if sibling is not None:
+        # a second connection built by the SAME factory object
+        return ws.open_endpoint(c["role"], None, compress=c["compress"], factory=sibling.factory,
+                                envobj=sibling.envobj)
     opts = {"failByDrop": c["failByDrop"]}
     if c["relaxed"]:
         if c["role"] == "server":
@@ -698,8 +702,8 @@ def _job_interleave(a, c, env):
     evals = 0
     classes = set()
 
-    def fresh():
-        ep = _endpoint(c)
+    def fresh(sibling=None):
+        ep = _endpoint(c, sibling)
         ep.take()
         return ep
 
@@ -726,7 +730,9 @@ def _job_interleave(a, c, env):
             stream_b = b"".join(d[k] for k in sb)
             vb = R.judge(stream_b, _refctx(c))
             for cutpos in range(1, len(stream_a)):
-                ep1, ep2 = fresh(), fresh()
+                ep1 = fresh()
+                # both connections belong to one factory on every other cut position
+                ep2 = fresh(ep1 if cutpos % 2 else None)
                 ep1.feed(stream_a[:cutpos])
                 ep2.feed(stream_b)
                 ep1.feed(stream_a[cutpos:])
